@@ -17,7 +17,9 @@ def req_attr(i, attr, text):
     return {"id": i, "entry": "attr", "attr": attr, "item": text}
 
 
-GAPS = ["", "", "#[allow(dead_code)] ", "#[doc = \" gap\"] ", "#[cfg_attr(all(), allow(unused))] ", "#[doc = \" a\"] #[allow(unused)] "]
+# (no `#[allow(..)]` here: the item's own allow attributes are copied onto the generated impls, so the two sides of a relation
+# must carry the same ones)
+GAPS = ["", "", "#[must_use] ", "#[doc = \" gap\"] ", "#[cfg_attr(all(), allow(unused))] ", "#[doc = \" a\"] #[repr(C)] "]
 
 
 def attr_run(attrs, rng=None, lead=False):
@@ -73,6 +75,39 @@ def activates_helper(item, base_traits, extra):
             if o == h and (t in extra or t in base_traits):
                 return True
     return False
+
+
+def compiled_split_programs():
+    """Split lists as rustc sees them: the second list is written with another spelling of the macro's path (qualified, through
+    an alias) - the macro cannot merge what it does not recognise, rustc expands the lists one after the other.  Each program
+    holds the merged list and the spellings side by side and observes the derived impls at run time."""
+    out = []
+    S = "{ #[ord(key = $.abs())] pub a: i32, #[ord(ignore)] pub b: u8, pub c: u8 }"
+    E_ = "{ A(#[ord(key = $ % 2, reverse)] u8), B, C { #[eq(ignore)] x: u8, y: u8 } }"
+    for kind, body, vals in (("struct", S, ["S { a: 1, b: 0, c: 1 }", "S { a: -1, b: 5, c: 1 }", "S { a: 2, b: 0, c: 0 }"]),
+                             ("enum", E_, ["S::A(1)", "S::A(3)", "S::A(2)", "S::B", "S::C { x: 1, y: 2 }", "S::C { x: 9, y: 2 }"])):
+        kw = f"pub {kind} S {body}"
+        first, second = ("PartialEq", "PartialOrd, Hash") if kind == "struct" else ("PartialEq, Eq", "PartialOrd, Ord, Hash")
+        obs = ("pub fn obs() -> ::std::string::String { let v = [" + ", ".join(vals) + "]; let mut o = ::std::string::String::new(); "
+               "for a in v.iter() { o += &::dxrt::RecHasher::of(a); for b in v.iter() { o += &format!(\"{}{:?};\", (a == b) as u8, a.partial_cmp(b)); } } o }")
+        mods = {
+            "merged": f"#[::derive_ex::derive_ex({first}, {second})] {kw}",
+            "bare": f"use ::derive_ex::derive_ex; #[derive_ex({first})] #[derive_ex({second})] {kw}",
+            "qualified": f"#[::derive_ex::derive_ex({first})] #[::derive_ex::derive_ex({second})] {kw}",
+            "alias": f"use ::derive_ex::derive_ex as dx; #[dx({first})] #[dx({second})] {kw}",
+        }
+        code = "\n".join(f"pub mod {m} {{ {t}\n{obs} }}" for m, t in mods.items())
+        code += "\npub fn run() { " + " ".join(f'::dxrt::ev!("split", "m" => "{m}", "o" => {m}::obs());' for m in mods) + " }"
+        out.append((kind, code))
+    return out
+
+
+def judge_split(c):
+    """-> list of (spelling, what) that differ from the merged list."""
+    ev = {e["m"]: e["o"] for e in c.events if e.get("k") == "split"}
+    if c.status != "ok" or "merged" not in ev:
+        return None
+    return [(m, f"merged list and `{m}` split lists behave differently") for m in ("bare", "qualified", "alias") if ev.get(m) != ev["merged"]]
 
 
 def run(rep, tier, rng):
@@ -201,6 +236,21 @@ def run(rep, tier, rng):
         if bad:
             rep.violation(f"C15|{kind}|{bad[0]}", f"{kind}: {bad[0]}\n A: {json.dumps(reqs[ia])[:400]}\n B: {json.dumps(reqs[ib])[:400]}\n{bad[1]}",
                           {"kind": kind, "a": reqs[ia], "b": reqs[ib], "info": info, "detail": bad[1]})
+    # ---- E-run: split lists whose second attribute spells the macro's path differently ----
+    scases = [C.Case(f"s{k}", code, {"kind": kind}) for k, (kind, code) in enumerate(compiled_split_programs())]
+    _, snotes = C.run_cases(scases, "c15s", header="#![allow(warnings)]", batch_size=1)
+    for nmsg in snotes:
+        rep.inconcl(nmsg)
+    for c in scases:
+        r = judge_split(c)
+        if r is None:
+            rep.inconcl(f"compiled split-list program gave no observation ({c.status}): {[d['message'] for d in c.diags if d['level'] == 'error'][:2]}")
+            continue
+        rep.evaluations += 3
+        rep.count("compiled_split_spellings", 3)
+        for m, what in r:
+            rep.violation(f"C15|split-list-macro-path|{m}", f"{what} ({c.meta['kind']}): the lists are expanded by separate invocations, the first strips the helper attributes the second needs\n{c.code[:600]}",
+                          {"kind": "compiled-split", "code": c.code, "spelling": m, "info": {}})
     kind, ia, ib, info = next(r for r in rel if r[0] == "split-derive")
     rep.sample({"relation": kind, "a": reqs[ia], "b": reqs[ib]})
     kind, ia, ib, info = next(r for r in rel if r[0] == "superset")
@@ -220,6 +270,14 @@ def run(rep, tier, rng):
 def replay(rep, path):
     j = json.load(open(path))["replay"]
     kind, info = j["kind"], j["info"]
+    if kind == "compiled-split":
+        c = C.compile_single(j["code"], header="#![allow(warnings)]")
+        r = judge_split(c)
+        if r and any(m == j["spelling"] for m, _ in r):
+            print(f"VIOLATION property=C15 replay={path}")
+            return 1
+        print("replay: no violation")
+        return 0
     if kind == "split-independent":
         o = C.expand([j["a"]] + j["b"])
         g = [generated(x, r["entry"]) for x, r in zip(o, [j["a"]] + j["b"])]
